@@ -110,5 +110,188 @@ def readRaw (bs : List UInt8) : Except Err Arrays :=
     else .error .invalid
   else .error .short
 
+/-! ### dequantisation (header.go:50-291, util.go) -/
+
+/-- what the decoder needs from its scalar beyond `Scalar` -/
+structure Env (α : Type) where
+  ofInt : Int → α
+  /-- `math.Pow(2.0, k)` for an integer `k` -/
+  pow2 : Int → α
+  /-- `math.Inf(+1)` -/
+  inf : α
+  /-- `math.NaN()` -/
+  nan : α
+
+variable {α : Type} [Scalar α]
+
+@[inline] def byteAt (a : List UInt8) (j : Nat) : UInt8 := a.getD j 0
+@[inline] def natF (n : Nat) : α := ((n : Nat) : α)
+@[inline] def byteF (b : UInt8) : α := natF b.toNat
+
+/-- header.go:254-262, one coordinate: three bytes little endian into a uint32, bit 23 extended
+    (`if fixed32 & 0x800000 > 0 { fixed32 |= 0xff000000 }`) -/
+def fixed24Word (b0 b1 b2 : BitVec 8) : BitVec 32 :=
+  let w := b0.setWidth 32 ||| (b1.setWidth 32 <<< 8) ||| (b2.setWidth 32 <<< 16)
+  if w &&& 0x800000#32 > 0#32 then w ||| 0xff000000#32 else w
+
+/-- `int32(fixed32)` -/
+def fixed24 (b0 b1 b2 : UInt8) : Int := (fixed24Word b0.toBitVec b1.toBitVec b2.toBitVec).toInt
+
+/-- `b := 1 << pgh.FractionalBits` on Go's 64-bit `int` (the shift count is a uint8: 63 gives the
+    minimum int, 64 and more give 0) -/
+def shl1 (fb : Nat) : Int := if fb < 63 then 2 ^ fb else if fb = 63 then -(2 ^ 63) else 0
+
+/-- `scale := 1.0 / float64(b)` -/
+def posScale (E : Env α) (fb : Nat) : α := natF 1 / E.ofInt (shl1 fb)
+
+/-- `float64(int32(fixed)) * scale` -/
+def fixedCoord (E : Env α) (fb : Nat) (b0 b1 b2 : UInt8) : α := E.ofInt (fixed24 b0 b1 b2) * posScale E fb
+
+/-- util.go `halfToFloat` on the 16-bit pattern `h < 65536`
+    (`(h>>10)&0x1f`, `h&0x3ff`, `(h>>15)&1` written with div/mod) -/
+def halfToFloat (E : Env α) (h : Nat) : α :=
+  let exponent := h / 1024 % 32
+  let mantissa := h % 1024
+  let signMul : α := if h / 32768 % 2 = 1 then -(natF 1) else natF 1
+  if exponent = 0 then signMul * E.pow2 (-14) * natF mantissa / natF 1024
+  else if exponent = 31 then
+    (if mantissa ≠ 0 then E.nan else if h / 32768 % 2 = 1 then -E.inf else E.inf)
+  else signMul * E.pow2 ((exponent : Int) - 15) * (natF 1 + natF mantissa / natF 1024)
+
+/-- little-endian uint16 (`binary.Read` into `[]uint16`) -/
+def halfCoord (E : Env α) (b0 b1 : UInt8) : α := halfToFloat E (b0.toNat + 256 * b1.toNat)
+
+/-- `alpha / 255` (load.go keeps the stored value; the inverse sigmoid is commented out) -/
+def alphaDec (b : UInt8) : α := byteF b / natF 255
+/-- `(b/255 - 0.5) / 0.15` -/
+def colorDec (b : UInt8) : α := (byteF b / natF 255 - lit 1 2) / lit 15 100
+/-- `b/16 - 10` -/
+def scaleDec (b : UInt8) : α := byteF b / natF 16 - natF 10
+/-- `b · (1/127.5) - 1` -/
+def rotDec (b : UInt8) : α := byteF b * lit 2 255 - natF 1
+/-- `sqrt(max(0, 1 - v·v))` -/
+def rotW (x y z : α) : α := Scalar.sqrt (max (natF 0) (natF 1 - (x * x + y * y + z * z)))
+/-- `unquantizeSH`: `(b - 128) / 128` -/
+def shDec (b : UInt8) : α := (byteF b - natF 128) / natF 128
+
+/-- one decoded splat of an SPZ cloud -/
+structure Point (α : Type) where
+  pos : V3 α
+  alpha : α
+  color : V3 α
+  scale : V3 α
+  rot : V4 α
+  sh : List (V3 α)
+
+/-- the decoded cloud as `spz.Read` stores it: one array per attribute, `SH_d` per coefficient -/
+structure Cloud (α : Type) where
+  positions : List (V3 α)
+  alphas : List α
+  colors : List (V3 α)
+  scales : List (V3 α)
+  rotations : List (V4 α)
+  sh : List (List (V3 α))
+
+/-- `readPositions` / `readPositionsFloat16`: index arithmetic over the planar array as in the source -/
+def decodePositions (E : Env α) (h : Header) (a : List UInt8) : List (V3 α) :=
+  (List.range h.numPoints).map fun i =>
+    if h.version = 1 then
+      let i3 := i * 3
+      ⟨halfCoord E (byteAt a (2 * i3)) (byteAt a (2 * i3 + 1)),
+       halfCoord E (byteAt a (2 * (i3 + 1))) (byteAt a (2 * (i3 + 1) + 1)),
+       halfCoord E (byteAt a (2 * (i3 + 2))) (byteAt a (2 * (i3 + 2) + 1))⟩
+    else
+      let i9 := i * 9
+      ⟨fixedCoord E h.fractionalBits (byteAt a (i9 + 0)) (byteAt a (i9 + 1)) (byteAt a (i9 + 2)),
+       fixedCoord E h.fractionalBits (byteAt a (i9 + 3)) (byteAt a (i9 + 4)) (byteAt a (i9 + 5)),
+       fixedCoord E h.fractionalBits (byteAt a (i9 + 6)) (byteAt a (i9 + 7)) (byteAt a (i9 + 8))⟩
+
+def decodeAlphas (n : Nat) (a : List UInt8) : List α := (List.range n).map fun i => alphaDec (byteAt a i)
+
+def decodeColors (n : Nat) (a : List UInt8) : List (V3 α) :=
+  (List.range n).map fun i =>
+    let i3 := i * 3
+    ⟨colorDec (byteAt a i3), colorDec (byteAt a (i3 + 1)), colorDec (byteAt a (i3 + 2))⟩
+
+def decodeScales (n : Nat) (a : List UInt8) : List (V3 α) :=
+  (List.range n).map fun i =>
+    let i3 := i * 3
+    ⟨scaleDec (byteAt a i3), scaleDec (byteAt a (i3 + 1)), scaleDec (byteAt a (i3 + 2))⟩
+
+def decodeRotations (n : Nat) (a : List UInt8) : List (V4 α) :=
+  (List.range n).map fun i =>
+    let i3 := i * 3
+    let x : α := rotDec (byteAt a (i3 + 0))
+    let y : α := rotDec (byteAt a (i3 + 1))
+    let z : α := rotDec (byteAt a (i3 + 2))
+    ⟨x, y, z, rotW x y z⟩
+
+/-- `readSh`: `sh[d][i] = data[d*3 + i*3*dim ..]` -/
+def decodeSh (n dim : Nat) (a : List UInt8) : List (List (V3 α)) :=
+  (List.range dim).map fun d =>
+    (List.range n).map fun i =>
+      let i3 := d * 3 + i * 3 * dim
+      ⟨shDec (byteAt a (i3 + 0)), shDec (byteAt a (i3 + 1)), shDec (byteAt a (i3 + 2))⟩
+
+def decode (E : Env α) (a : Arrays) : Cloud α :=
+  let n := a.header.numPoints
+  { positions := decodePositions E a.header a.positions,
+    alphas := decodeAlphas n a.alphas,
+    colors := decodeColors n a.colors,
+    scales := decodeScales n a.scales,
+    rotations := decodeRotations n a.rotations,
+    sh := decodeSh n (shDim a.header.shDegree) a.sh }
+
+/-- `spz.Read` on the decompressed stream -/
+def read (E : Env α) (bs : List UInt8) : Except Err (Cloud α) := (readRaw bs).map (decode E)
+
+/-! ### reference encoder, written from the published layout -/
+
+/-- the packed record of one splat -/
+structure Packed where
+  /-- 9 bytes (version 2: x y z, 3 bytes each) or 6 bytes (version 1: x y z, 2 bytes each) -/
+  pos : List UInt8
+  alpha : UInt8
+  color : List UInt8
+  scale : List UInt8
+  rot : List UInt8
+  /-- `dim` coefficients, 3 channel bytes each -/
+  sh : List UInt8
+deriving DecidableEq, Repr
+
+def le32b (n : Nat) : List UInt8 :=
+  [UInt8.ofNat (n % 256), UInt8.ofNat (n / 256 % 256), UInt8.ofNat (n / 65536 % 256), UInt8.ofNat (n / 16777216 % 256)]
+
+def encHeader (h : Header) : List UInt8 :=
+  le32b h.magic ++ le32b h.version ++ le32b h.numPoints ++
+  [UInt8.ofNat h.shDegree, UInt8.ofNat h.fractionalBits, UInt8.ofNat h.flags, UInt8.ofNat h.reserved]
+
+/-- header, then the attributes planar, in the published order -/
+def refEncode (h : Header) (ps : List Packed) : List UInt8 :=
+  encHeader h ++ ([ps.flatMap (·.pos), ps.map (·.alpha), ps.flatMap (·.color), ps.flatMap (·.scale),
+    ps.flatMap (·.rot), ps.flatMap (·.sh)] : List (List UInt8)).flatten
+
+/-- the record fits the header -/
+def Packed.fits (h : Header) (p : Packed) : Prop :=
+  p.pos.length = posBytes h ∧ p.color.length = 3 ∧ p.scale.length = 3 ∧ p.rot.length = 3 ∧
+  p.sh.length = 3 * shDim h.shDegree
+
+/-- dequantisation of ONE record, from its own bytes -/
+def dequant (E : Env α) (h : Header) (p : Packed) : Point α :=
+  { pos := if h.version = 1 then
+        ⟨halfCoord E (byteAt p.pos 0) (byteAt p.pos 1), halfCoord E (byteAt p.pos 2) (byteAt p.pos 3),
+         halfCoord E (byteAt p.pos 4) (byteAt p.pos 5)⟩
+      else
+        ⟨fixedCoord E h.fractionalBits (byteAt p.pos 0) (byteAt p.pos 1) (byteAt p.pos 2),
+         fixedCoord E h.fractionalBits (byteAt p.pos 3) (byteAt p.pos 4) (byteAt p.pos 5),
+         fixedCoord E h.fractionalBits (byteAt p.pos 6) (byteAt p.pos 7) (byteAt p.pos 8)⟩,
+    alpha := alphaDec p.alpha,
+    color := ⟨colorDec (byteAt p.color 0), colorDec (byteAt p.color 1), colorDec (byteAt p.color 2)⟩,
+    scale := ⟨scaleDec (byteAt p.scale 0), scaleDec (byteAt p.scale 1), scaleDec (byteAt p.scale 2)⟩,
+    rot := ⟨rotDec (byteAt p.rot 0), rotDec (byteAt p.rot 1), rotDec (byteAt p.rot 2),
+            rotW (rotDec (byteAt p.rot 0)) (rotDec (byteAt p.rot 1)) (rotDec (byteAt p.rot 2))⟩,
+    sh := (List.range (shDim h.shDegree)).map fun d =>
+      ⟨shDec (byteAt p.sh (d * 3 + 0)), shDec (byteAt p.sh (d * 3 + 1)), shDec (byteAt p.sh (d * 3 + 2))⟩ }
+
 end Spz
 end PolyVerif
